@@ -216,6 +216,19 @@ def run(ctx):
                 if lp.wf_subpaths(order, lay[1], lay[2]):
                     nsel += selection_law(ctx, lay, order)
                     ctx.distinct(("sel", tuple(s[2] for s in lp.wf_subpaths(order, lay[1], lay[2]))))
+    # longer paths with three and four counted sub-paths of different sizes (the exhaustive lengths above
+    # reach two at most): the pick must still be proportional to the frame counts
+    for lay in LAYOUTS:
+        l0, left, right, lB = lay
+        lo, hi = l0 - 1.0, lB + 1.0
+        a, b, c = left + (right - left) * 0.25, left + (right - left) * 0.5, left + (right - left) * 0.75
+        for order in ((lo, a, lo, a, b, lo, a, b, c, hi),
+                      (lo, a, b, c, hi, b, a, lo, c, lo),
+                      (hi, c, b, hi, a, lo, a, lo, b, c, a, hi),
+                      (lo, a, hi, c, b, lo, a, b, hi, a, lo)):
+            if len(lp.wf_subpaths(order, left, right)) >= 3:
+                nsel += selection_law(ctx, lay, order)
+                ctx.distinct(("sel-long", tuple(s[2] for s in lp.wf_subpaths(order, left, right))))
     nvec = vector_rules(ctx, 4 if ctx.quick else 5)
     ctx.set("evaluations", n + nsel + nvec)
     ctx.set("sequences", n)
